@@ -10,6 +10,7 @@
   `popped m size = (edns0Opt, additionals after PopEDNS0)`, `keptMsg m c size` = the sub-message the
   loops retain (explicitly computed), OPT re-appended last, `Truncated` or-ed with "something skipped".
 -/
+import MosVerif.Lemmas.TranslatedC09
 import MosVerif.Lemmas.CodecTruncProps
 import MosVerif.Model.RespIO
 namespace MosVerif.C09
